@@ -544,7 +544,8 @@ fn build(k: K, mut ch: Vec<E>) -> E {
 
 /// all trees with exactly n operators, n <= 2, materialised
 fn level_lists() -> [Vec<E>; 3] {
-    let l0 = vec![E::var("a"), E::Lit(V::Int(1))];
+    // leaves: an identifier, an int literal, and a string literal that looks like a field name (`a["k"]` is an index, not `a.k`)
+    let l0 = vec![E::var("a"), E::Lit(V::Int(1)), E::Lit(V::s("k"))];
     let mut l1 = vec![];
     let mut l2 = vec![];
     let ks = kinds();
